@@ -13,6 +13,10 @@
 //!   ecdsa.verify_der msg pub der hash            -> OK:v   signature object without recovery info (Signature::from_der)
 //!   ecdsa.privkey_from_k key comp k kcomp msg hash pubcomp -> OK:<d> | OK:E   sign_with_k, then private_key_from_signature_k
 //!   ecdsa.verify_message msg pub r s             -> OK:v   (Signature::verify_message / PublicKey::verify_message / is_valid_message agree)
+//!   ecdsa.cross signer key comp msg hash rk aux verifier key2 comp2 msg2 hash2 -> OK:v
+//!        signer: det | msg (sign_message) | k (aux = nonce, rk = nonce key marker) | dig (digest of msg under hash) | rnd;
+//!        verifier: vd (verify_digest) | vh (verify_hashbuf on hash2(msg2)) | sm (Signature::verify_message) |
+//!                  pm (PublicKey::verify_message) | pv (PublicKey::is_valid_message)   (sm/pm/pv are SHA-256 by definition)
 //!   ecdh.derive key pub                          -> OK:<shared>
 //!   ecdh.pair   key1 comp1 key2 comp2            -> OK:<shared 1->2>;<shared 2->1>
 //! hdr = first byte of to_compact_bytes(None) (decimal): the only public view of the recovery info.
@@ -72,6 +76,52 @@ const ORDER: [u8; 32] = [
     0xff, 0xff, 0xff, 0xff, 0xff, 0xff, 0xff, 0xff, 0xff, 0xff, 0xff, 0xff, 0xff, 0xff, 0xff, 0xfe, 0xba, 0xae, 0xdc, 0xe6, 0xaf, 0x48, 0xa0, 0x3b,
     0xbf, 0xd2, 0x5e, 0x8c, 0xd0, 0x36, 0x41, 0x41,
 ];
+
+fn digest_of(h: SigningHash, msg: &[u8]) -> Vec<u8> {
+    match h {
+        SigningHash::Sha256 => bsv::Hash::sha_256(msg).to_bytes(),
+        SigningHash::Sha256d => bsv::Hash::sha_256d(msg).to_bytes(),
+    }
+}
+/// One of the five ways a signature is produced, shared by ecdsa.cross (C05) and sig.cross (C06).
+/// args[i..i+7] = signer key comp msg hash rk aux;  signer: det | msg | k (aux = nonce) | dig | rnd (aux = model entropy, ignored)
+/// Returns (signing key, signature, the hash choice the signature is over).  None = BADARG, Some(Err) = ERR.
+pub fn produce(args: &[String], i: usize) -> Option<Result<(PrivateKey, Signature, SigningHash), ()>> {
+    let signer = args.get(i)?.as_str();
+    let key = match key_of(args, i + 1, i + 2)? {
+        Ok(k) => k,
+        Err(_) => {
+            // still validate the remaining arguments so that BADARG does not depend on the key
+            arg_bytes(args, i + 3)?;
+            args.get(i + 4).and_then(|s| hash_of(s))?;
+            flag(args, i + 5)?;
+            arg_bytes(args, i + 6)?;
+            return Some(Err(()));
+        }
+    };
+    let msg = arg_bytes(args, i + 3)?;
+    let h = args.get(i + 4).and_then(|s| hash_of(s))?;
+    let rk = flag(args, i + 5)?;
+    let aux = arg_bytes(args, i + 6)?;
+    let r = match signer {
+        "det" => ECDSA::sign_with_deterministic_k(&key, &msg, h, rk).map(|s| (s, h)),
+        "msg" => key.sign_message(&msg).map(|s| (s, SigningHash::Sha256)),
+        "k" => match PrivateKey::from_bytes(&aux) {
+            Ok(e) => ECDSA::sign_with_k(&key, &e.compress_public_key(rk), &msg, h).map(|s| (s, h)),
+            Err(_) => return Some(Err(())),
+        },
+        "dig" => ECDSA::sign_digest_with_deterministic_k(&key, &digest_of(h, &msg)).map(|s| (s, h)),
+        "rnd" => ECDSA::sign_with_random_k(&key, &msg, h, rk).map(|s| (s, h)),
+        _ => return None,
+    };
+    Some(match r {
+        Ok((s, hh)) => Ok((key, s, hh)),
+        Err(_) => Err(()),
+    })
+}
+pub fn digest_for(h: SigningHash, msg: &[u8]) -> Vec<u8> {
+    digest_of(h, msg)
+}
 
 macro_rules! some {
     ($e:expr) => {
@@ -216,6 +266,24 @@ pub fn run(op: &str, args: &[String]) -> Option<String> {
             match ECDSA::private_key_from_signature_k(&sig, &pk, &k, &msg, h) {
                 Ok(p) => format!("OK:{}", hex::encode(p.to_bytes())),
                 Err(_) => "OK:E".into(),
+            }
+        }
+        "ecdsa.cross" => {
+            // <7 production args> verifier key2 comp2 msg2 hash2
+            let (_key, sig, _h) = okk!(some!(produce(args, 0)));
+            let verifier = some!(args.get(7)).as_str();
+            let key2 = okk!(some!(key_of(args, 8, 9)));
+            let msg2 = some!(arg_bytes(args, 10));
+            let h2 = some!(args.get(11).and_then(|s| hash_of(s)));
+            let pk2 = okk!(key2.to_public_key());
+            let b = |x: bool| if x { "1" } else { "0" };
+            match verifier {
+                "vd" => format!("OK:{}", vres(ECDSA::verify_digest(&msg2, &pk2, &sig, h2))),
+                "vh" => format!("OK:{}", vres(ECDSA::verify_hashbuf(&digest_of(h2, &msg2), &pk2, &sig))),
+                "sm" => format!("OK:{}", b(sig.verify_message(&msg2, &pk2))),
+                "pm" => format!("OK:{}", vres(pk2.verify_message(&msg2, &sig))),
+                "pv" => format!("OK:{}", b(pk2.is_valid_message(&msg2, &sig))),
+                _ => return Some("BADARG".into()),
             }
         }
         "ecdh.derive" => {
